@@ -151,6 +151,8 @@ def check_property(pid, tier, seed):
                 harness_failures.append(f)
 
     def failures_for(fn_label):
+        if fn_label in ("struct", "lemma") or fn_label.startswith("struct"):
+            return list(harness_failures)       # structural obligations concern the whole property: any concrete failure replays them
         short = fn_label.split(".")[-1].split("[")[0]
         return [f for f in harness_failures if short and short in (f.get("function", "") + " " + f.get("clause", ""))]
 
